@@ -176,7 +176,10 @@ def run_config(cfg):
           "extra": [[key, shape_name], ...]                 state entries no kernel controls (besides "c")
           "incl": [...], "excl": [...], "ngens": g, "store_ks": bool,
           "chunk": None (builder: gcd) | int (Engine constructed directly with this jitted duration),
-          "driver": "all" | "step" | "append:<k>:each" | "append:<k>:bulk"}
+          "driver": "all" | "step" | "append:<k>:each" | "append:<k>:bulk",
+          "sel_mode": "assign" (fresh lists, default) | "append" | "extend" (in place on the attribute lists) | "default" (untouched),
+          "session": [{"when": "before_create"|"after_create"|"after_config", "incl", "excl", "mode"}, ...]  other
+                     EngineBuilders created and configured in the same process at that moment}
           append:<k>: the engine is constructed with the first k epochs only and samples them; the remaining
           epochs are handed over afterwards with Engine.append_epoch (each: append one, sample it, ...;
           bulk: append all, then sample_all_epochs).  Needs an explicit "chunk".
@@ -215,8 +218,36 @@ def run_config(cfg):
     if drv.startswith("append"):
         nfirst = int(drv.split(":")[1])
         assert cfg.get("chunk") is not None and 1 <= nfirst <= len(epochs)
+    def select(b, incl, excl, mode):
+        """configure the tracked-key selection of builder b the way users do"""
+        if mode == "assign":
+            b.positions_included = list(incl)
+            b.positions_excluded = list(excl)
+        elif mode == "append":
+            for k in incl:
+                b.positions_included.append(k)
+            for k in excl:
+                b.positions_excluded.append(k)
+        elif mode == "extend":
+            b.positions_included.extend(incl)
+            b.positions_excluded.extend(excl)
+        else:
+            assert mode == "default" and not incl and not excl      # attributes left untouched
+
+    # other builders living in the same process (cfg["session"]): each is created and configured at the stated
+    # moment relative to THIS builder; none of them may influence what this builder's engine tracks
+    session = cfg.get("session", [])
+
+    def others(when):
+        for sp in session:
+            if sp["when"] == when:
+                ob_ = gs.EngineBuilder(seed=sp.get("seed", 7), num_chains=1)
+                select(ob_, sp["incl"], sp["excl"], sp["mode"])
+
     try:
+        others("before_create")
         builder = gs.EngineBuilder(seed=cfg.get("seed", 1), num_chains=nch)
+        others("after_create")
         builder.set_model(model)
         builder.set_initial_values(state, multiple_chains=True)
         for k in kernels:
@@ -224,8 +255,8 @@ def run_config(cfg):
         for g in gens:
             builder.add_quantity_generator(g)
         builder.set_epochs(epochs)
-        builder.positions_included = list(cfg["incl"])
-        builder.positions_excluded = list(cfg["excl"])
+        select(builder, cfg["incl"], cfg["excl"], cfg.get("sel_mode", "assign"))
+        others("after_config")
         builder.store_kernel_states = bool(cfg["store_ks"])
         builder.show_progress = False
         engine = builder.build()
